@@ -63,4 +63,56 @@ PROPS["C05"] = {
     "level_note": "Trusted: Lean kernel; the value-level decoding model; the yaml/json text codecs (third-party, fuzzed under C08); fact obligations F1/F4 on the regenerated tables.",
 }
 
+CACHE_TB = ["filepath.Walk modelled as: lstat root, sorted names, lstat each entry, no symlink following (scanDir); os.ReadFile follows links",
+                     "file content is given to the model as the typed Spec the harness wrote (decoding is C05/C09); validity is decided by the C05 model",
+                     "Go map iteration over a Spec's devices = some order (device names are unique per Spec)"]
+
+PROPS["C01"] = {
+    "level": "proof",
+    "streams": ["cache"],
+    "ops": ["refresh"],
+    "clauses": "panic|resolution|listing",
+    "trusted_base": CACHE_TB,
+    "assumptions": ["files taking part in a same-priority conflict count as files in error (I1)"],
+    "technique": "Lean 4 proof: refresh fold refined to a per-name fold, invariant over ascending-priority scans => resolution = declarative winner; lower-priority irrelevance, walk-order invariance, listings; correspondence on real directory trees",
+    "level_text": "Kernel-checked theorems for every directory population: the scan delivers only .json/.yaml files directly inside the configured directories in non-decreasing priority; the literal fold of the refresh callback resolves a name to d iff, among the loaded files defining it, the highest priority has exactly one definer and d is its definition (C01_resolve_iff, by a fold invariant, no bound on directories/files/devices); anything at lower priorities is irrelevant; permuting files does not matter; the Spec index is exactly the loaded files. Tied to the code by building random layouts (1-4 configured directories with repeats, missing/ENOTDIR/regular-file paths, valid/invalid/unparsable/empty files, non-Spec names, subdirectories, dangling and directory symlinks, files defining the same devices at equal and different priorities) on a scratch tree, refreshing a real cache and comparing ListDevices, GetDevice path/priority/definition, ListVendors, ListClasses, GetVendorSpecs and the error keys with the model and with the declarative judge.",
+    "level_note": "Trusted: Lean kernel; the Walk model; the harness' description of what it put on disk. Automatic-refresh mode is covered by C11.",
+}
+
+PROPS["C13"] = {
+    "level": "proof",
+    "streams": ["cache"],
+    "ops": ["refresh"],
+    "trusted_base": CACHE_TB,
+    "assumptions": ["files taking part in a same-priority conflict count as files in error (I1)",
+                    "directories that cannot be listed because of permissions are exercised only when the harness can drop privileges (counted as skipped otherwise)"],
+    "technique": "Lean 4 proof: faulty directories are skipped not fatal (scan append law), isolation via C01, soundness of the error report by an invariant over the event fold, refresh-error characterisation; fault-placement correspondence on real trees",
+    "level_text": "Kernel-checked theorems: a missing/unscannable/unreadable directory at any position contributes nothing and the scan continues with the later directories; every name resolves by the precedence rule over the files that did load (so a bad file or directory affects only itself); every path in the error report is a file that failed to load or a participant of a same-priority conflict, every failed file is reported, and Refresh returns no error exactly when there is nothing to report; the report is a function of the current directory state only. Tied to the code by the cache stream, which places each fault kind (syntax/semantic error, empty file, dangling link, link to a directory, missing directory, ENOTDIR path, regular file as directory) at every position of the directory list and compares devices, error keys and the Refresh error with the model and the judge.",
+    "level_note": "Trusted: Lean kernel; the Walk model incl. which lstat errors reach the callback; completeness of conflict participants in the report is checked by correspondence (judge), the theorem proves soundness and completeness for failed files.",
+}
+
+PROPS["C02"] = {
+    "level": "proof",
+    "streams": ["cache"],
+    "ops": ["inject"],
+    "clauses": "panic|combined|applying|applied-with|resolvable-name",
+    "trusted_base": CACHE_TB + ["identity of a loaded *Spec modelled by (path, priority)"],
+    "assumptions": [],
+    "technique": "Lean 4 proof: loop invariant of InjectDevices => one Apply of the declaratively defined combined edit list; dependence only on requested names; metamorphic correspondence (real InjectDevices vs real Apply of the combined list)",
+    "level_text": "Kernel-checked theorems for every resolution function, request list and cache: when all names resolve, InjectDevices performs exactly one Apply of `combined` = for each device in request order the spec-level edits of its file (first time only) followed by the device's edits; the outcome depends on the cache only through the requested names. Tied to the code by random ordered requests on the C01 layouts (interleaving devices of one file with others, shadowed twins, repetitions): the harness rebuilds the combined list through the query API, applies it with the real ContainerEdits.Apply to an equal OCI spec and requires the same result as the real InjectDevices, and the model/judge require that list to equal `combined` of the declarative winners.",
+    "level_note": "Trusted: Lean kernel; ContainerEdits.Apply itself is the subject of C03, not of this check.",
+}
+
+PROPS["C04"] = {
+    "level": "proof",
+    "streams": ["cache"],
+    "ops": ["inject"],
+    "clauses": "panic|unresolv|nil-oci|oci-spec-modified|no-error",
+    "trusted_base": CACHE_TB,
+    "assumptions": [],
+    "technique": "Lean 4 proof: same loop invariant => error with exactly the unresolved names in request order (with repetitions), no Apply; nil OCI guard; unresolved iff no declarative winner; before/after comparison of the real OCI spec",
+    "level_text": "Kernel-checked theorems for every request list: if some name does not resolve, the outcome is `unresolved (req.filter unresolved)` - request order, repetitions kept - and no Apply is performed; a nil OCI spec returns all names; a name is unresolved iff the precedence rule gives no winner. Tied to the code by mixed requests (resolvable, unknown, syntactically invalid, shadowed-only, conflict-removed, repeated) on populated OCI specs with a JSON deep comparison of the spec before and after, and nil-spec calls.",
+    "level_note": "Trusted: Lean kernel; that returning before Apply leaves the caller's object untouched is observed, not proved (Go aliasing).",
+}
+
 NOT_APPLICABLE = {}
